@@ -9,8 +9,17 @@ def units():
     # 'stepping on behaves like a fresh stepper' rests on reset() (first action of every step) emptying the
     # controller: ExecutionController.reset is a function this property depends on
     from .c04 import ResetContract
-    return units_single_step() + [FunctionUnit(ResetContract()),FunctionUnit(StepLoop("interpreter")), FunctionUnit(StepLoop("generated")),
-                                  FunctionUnit(SingleStepGenerated())]
+    from pyvc.contracts import FilteredUnit
+
+    def mine(n):
+        # when next_phase is moved to the default successor (before or after the body) is C01's subject: each stepper is
+        # self-consistent either way; where reset() stands in the step is C04's: C11 needs the controller emptied before
+        # the next step's plan is built, which ResetContract + the bounded stand-in carry
+        return not ("next-phase" in n or "next_phase" in n or "reset-is-the-first-action" in n or "plan-is-built-after-reset" in n
+                    or "the-body-ran" in n)
+    us = units_single_step() + [FunctionUnit(ResetContract()), FunctionUnit(StepLoop("interpreter")), FunctionUnit(StepLoop("generated")),
+                                FunctionUnit(SingleStepGenerated())]
+    return [FilteredUnit(u, mine) if isinstance(u, FunctionUnit) else u for u in us]
 
 
 LEVEL = "proof"
